@@ -8,7 +8,7 @@ EXTENDS MC_Content, IOUtils
 
 FileCases ==
     LET js == ndJsonDeserialize(IOEnv.CASES)
-    IN {[ops |-> OpsOf(js[i].ops), idws |-> js[i].idws, free |-> js[i].free] : i \in 1..Len(js)}
+    IN {[ops |-> OpsOf(js[i].ops), idws |-> js[i].idws, free |-> js[i].free, ord |-> 0] : i \in 1..Len(js)}
 
 GInit == InitWith(FileCases)
 GSpec == GInit /\ [][Next]_vars
